@@ -3438,6 +3438,10 @@ operatorSwitch:
 			c.emit(dropOp)
 			c.emit(newOperationBr(functionFrame.asLabel()))
 		} else {
+			// A tail call does not grow the call stack, so a cycle of them is a loop.
+			if c.ensureTermination {
+				c.emit(newOperationBuiltinFunctionCheckExitCode())
+			}
 			c.emit(newOperationTailCallReturnCall(index))
 		}
 
@@ -3456,6 +3460,10 @@ operatorSwitch:
 
 		functionFrame := c.controlFrames.functionFrame()
 		dropRange := c.getFrameDropRange(functionFrame, false)
+		// A tail call does not grow the call stack, so a cycle of them is a loop.
+		if c.ensureTermination {
+			c.emit(newOperationBuiltinFunctionCheckExitCode())
+		}
 		c.emit(newOperationTailCallReturnCallIndirect(typeIndex, tableIndex, dropRange, functionFrame.asLabel()))
 
 		// Return operation is stack-polymorphic, and mark the state as unreachable.
